@@ -39,18 +39,21 @@ pub enum Case {
     Schedules { sims: Vec<SimSpec>, workers: usize, sched: Sched, iters: usize, sched_seed: u64, hash_seed: u64 },
     HashRepeat { inner: Box<cases::Case>, seed_a: u64, seed_b: u64, hash_seed: u64 },
     Rayon { sims: Vec<SimSpec>, threads: usize, hash_seed: u64 },
+    /// another world's case executed inside private rayon pools of different sizes (and outside any): whatever
+    /// the library parallelises internally must not make results depend on the worker count
+    PoolRepeat { inner: Box<cases::Case>, threads: Vec<usize>, seed: u64, hash_seed: u64 },
 }
 
 impl Case {
     pub fn hash_seed(&self) -> u64 {
         match self {
-            Case::Schedules { hash_seed, .. } | Case::HashRepeat { hash_seed, .. } | Case::Rayon { hash_seed, .. } => *hash_seed,
+            Case::Schedules { hash_seed, .. } | Case::HashRepeat { hash_seed, .. } | Case::Rayon { hash_seed, .. } | Case::PoolRepeat { hash_seed, .. } => *hash_seed,
         }
     }
     pub fn size(&self) -> usize {
         match self {
             Case::Schedules { sims, workers, iters, .. } => sims.len() * 4 + workers + iters / 4 + sims.iter().map(|s| s.n_steps / 8).sum::<usize>(),
-            Case::HashRepeat { inner, .. } => inner.size(),
+            Case::HashRepeat { inner, .. } | Case::PoolRepeat { inner, .. } => inner.size(),
             Case::Rayon { sims, threads, .. } => sims.len() * 4 + threads,
         }
     }
@@ -81,7 +84,17 @@ fn gen_sims(rng: &mut Rng, max_n: usize) -> Vec<SimSpec> {
 }
 
 pub fn generate(rng: &mut Rng, _focus: &str, thorough: bool) -> Case {
-    match rng.below(10) {
+    match rng.below(12) {
+        10..=11 => {
+            // consists (pt), trains (trn) and dispatch scenarios (dsp): everything built on top of a consist
+            let inner_prop = *rng.pick(&["C10", "C10", "C14", "C03", "C04"]);
+            let inner = cases::generate_world(inner_prop, "C18", rng, thorough);
+            let mut threads = vec![1, *rng.pick(&[2, 2, 3, 4]), *rng.pick(&[5, 8, 16])];
+            if rng.chance(0.3) {
+                threads.push(*rng.pick(&[6, 7, 12]));
+            }
+            Case::PoolRepeat { inner: Box::new(inner), threads, seed: rng.next(), hash_seed: rng.next() }
+        }
         0..=5 => Case::Schedules {
             sims: gen_sims(rng, 12),
             workers: rng.usize(1, 16),
@@ -91,7 +104,7 @@ pub fn generate(rng: &mut Rng, _focus: &str, thorough: bool) -> Case {
             hash_seed: rng.next(),
         },
         6..=8 => {
-            let inner_prop = *rng.pick(&["C03", "C14", "C04", "C04", "C02", "C16", "C14"]);
+            let inner_prop = *rng.pick(&["C03", "C14", "C04", "C04", "C02", "C16", "C14", "C10", "C06"]);
             let inner = cases::generate_world(inner_prop, "C18", rng, thorough);
             Case::HashRepeat { inner: Box::new(inner), seed_a: rng.next(), seed_b: rng.next(), hash_seed: rng.next() }
         }
@@ -326,6 +339,33 @@ pub fn execute(case: &Case, ctx: &mut Ctx) {
             }
             ctx.nontrivial = sims.len() >= 2 && *threads >= 2;
         }
+        Case::PoolRepeat { inner, threads, seed, .. } => {
+            ctx.class.push(format!("thr:pool:{}:{:?}", inner.world_name(), threads));
+            ctx.layer = "pool-repeat";
+            let fp = |c: &Ctx| (c.trace.0, c.viol.len(), c.sim_s.to_bits(), c.counters.get("stat.steps").copied().unwrap_or(0));
+            let t = std::time::Duration::from_secs(90);
+            match crate::run_case_in(inner, *seed, None, t) {
+                Some(plain) => {
+                    ctx.sim_s += plain.sim_s;
+                    ctx.trace.u(plain.trace.0);
+                    ctx.nontrivial = plain.nontrivial;
+                    for n in threads {
+                        match crate::run_case_in(inner, *seed, Some(*n), t) {
+                            Some(c) => {
+                                ctx.hit("fault.sched.pool_size");
+                                ctx.hit("stat.pool_runs");
+                                if fp(&c) != fp(&plain) {
+                                    ctx.violate("C18", "repeat", "same inputs, different thread-pool size => identical outputs", format!("{}: outside any pool vs inside a pool of {n} thread(s): trace {:x} vs {:x}, violations {} vs {}, simulated seconds {} vs {}", inner.world_name(), plain.trace.0, c.trace.0, plain.viol.len(), c.viol.len(), plain.sim_s, c.sim_s));
+                                    break;
+                                }
+                            }
+                            None => ctx.hit("stat.pool_run_hang"),
+                        }
+                    }
+                }
+                None => ctx.hit("stat.pool_run_hang"),
+            }
+        }
         Case::HashRepeat { inner, seed_a, seed_b, .. } => {
             ctx.class.push(format!("thr:hash:{}", inner.world_name()));
             ctx.layer = "hash-repeat";
@@ -381,6 +421,16 @@ pub fn shrink(case: &Case) -> Vec<Case> {
             let dummy = Violation { property: "".into(), monitor: "".into(), clause: "".into(), layer: "".into(), event: 0, detail: "".into(), sig: Sig::new() };
             for c in cases::shrink(inner, &dummy) {
                 out.push(Case::HashRepeat { inner: Box::new(c), seed_a: *seed_a, seed_b: *seed_b, hash_seed: *hash_seed });
+            }
+        }
+        Case::PoolRepeat { inner, threads, seed, hash_seed } => {
+            let dummy = Violation { property: "".into(), monitor: "".into(), clause: "".into(), layer: "".into(), event: 0, detail: "".into(), sig: Sig::new() };
+            if threads.len() > 2 {
+                out.push(Case::PoolRepeat { inner: inner.clone(), threads: vec![threads[0], threads[1]], seed: *seed, hash_seed: *hash_seed });
+                out.push(Case::PoolRepeat { inner: inner.clone(), threads: vec![threads[0], *threads.last().unwrap()], seed: *seed, hash_seed: *hash_seed });
+            }
+            for c in cases::shrink(inner, &dummy) {
+                out.push(Case::PoolRepeat { inner: Box::new(c), threads: threads.clone(), seed: *seed, hash_seed: *hash_seed });
             }
         }
         Case::Rayon { sims, threads, hash_seed } => {
